@@ -60,15 +60,16 @@ def evaluate():
         return V("Expression", "Update", meta=meta(tag + ".rhs"), var=O("var"), access=acc, rhe=inner, __degree=inner[3].get("__degree", NONE), __reads=inner[3].get("__reads", ("L", ())))
 
     program = [
-        ("sub", "AssignSignal", "s1", None, "quadratic", []),            # s1 <-- quadratic            -> could be <==
-        ("sub", "AssignSignal", "s2", None, "cubic", []),                # s2 <-- cubic                -> finding, constraints on s2: c1, c3
-        ("sub", "AssignSignal", "s3", None, None, []),                   # s3 <-- unknown degree       -> finding, no constraints
-        ("sub", "AssignSignal", "arr", A0, "cubic", []),                 # arr[0] <-- cubic            -> finding, constraints on arr[0]: c2
-        ("sub", "AssignSignal", "s2", None, "quadratic", []),            # s2 <-- quadratic (again)    -> could be <==
-        ("sub", "AssignConstraintSignal", "t", None, "quadratic", [("s2", EMPTY)]),      # c1: t <== .. s2 ..
-        ("eq", None, None, None, None, ([("arr", A0)], [("s1x", EMPTY)])),               # c2: arr[0] === ..
-        ("eq", None, None, None, None, ([("u", EMPTY)], [("s2", EMPTY), ("arr", access(1))])),  # c3: u === .. s2 .. arr[1]
-        ("sub", "AssignLocalOrComponent", "v", None, "quadratic", []),   # v = ..                      -> nothing
+        ("sub", "AssignSignal", "s1", None, "quadratic", []),            # 0: s1 <-- quadratic         -> could be <==
+        ("sub", "AssignSignal", "s2", None, "cubic", []),                # 1: s2 <-- cubic             -> finding, constraints on s2: c1, c3
+        ("sub", "AssignSignal", "s3", None, None, []),                   # 2: s3 <-- unknown degree    -> finding, no constraints
+        ("sub", "AssignSignal", "arr", A0, "cubic", []),                 # 3: arr[0] <-- cubic         -> finding, constraints on arr[0]: c2
+        ("sub", "AssignSignal", "arr", access(1), "cubic", []),          # 4: arr[1] <-- cubic         -> finding, constraints on arr[1]: c3 (not those of arr[0])
+        ("sub", "AssignSignal", "s2", None, "quadratic", []),            # 5: s2 <-- quadratic (again) -> could be <==
+        ("sub", "AssignConstraintSignal", "t", None, "quadratic", [("s2", EMPTY)]),      # 6 = c1: t <== .. s2 ..
+        ("eq", None, None, None, None, ([("arr", A0)], [("s1x", EMPTY)])),               # 7 = c2: arr[0] === ..
+        ("eq", None, None, None, None, ([("u", EMPTY)], [("s2", EMPTY), ("arr", access(1))])),  # 8 = c3: u === .. s2 .. arr[1]
+        ("sub", "AssignLocalOrComponent", "v", None, "quadratic", []),   # 9: v = ..                   -> nothing
         ("other", None, None, None, None, None),
     ]
     results = {}
@@ -109,8 +110,8 @@ def evaluate():
             got.append((r[1], sig[0] if sig else None, len(acc) if acc is not None else None, m_[0] if m_ else None, cm))
         want = []
         if kind == "Template":
-            want = [("could-be-constraint", "s1", 0, "stmt0", None), ("assignment", "s2", 0, "stmt1", ["stmt5", "stmt7"]), ("assignment", "s3", 0, "stmt2", []), ("assignment", "arr", 1, "stmt3", ["stmt6"]),
-                    ("could-be-constraint", "s2", 0, "stmt4", None)]
+            want = [("could-be-constraint", "s1", 0, "stmt0", None), ("assignment", "s2", 0, "stmt1", ["stmt6", "stmt8"]), ("assignment", "s3", 0, "stmt2", []), ("assignment", "arr", 1, "stmt3", ["stmt7"]),
+                    ("assignment", "arr", 1, "stmt4", ["stmt8"]), ("could-be-constraint", "s2", 0, "stmt5", None)]
         results[kind] = (got, want)
     return results
 
@@ -149,7 +150,7 @@ def rule(ctx, R, part):
         problems["reports"] = "findings for %s, expected one per `<--` statement in order: %s" % ([x[1:] for x in gk], [x[1:] for x in wk])
     elif [x[0] for x in gk] != [x[0] for x in wk]:
         i = [j for j in range(len(gk)) if gk[j][0] != wk[j][0]][0]
-        problems["degree"] = "`%s <-- e` at %s is reported as `%s`, expected `%s` (right-hand side degree: %s)" % (wk[i][1], wk[i][3], gk[i][0], wk[i][0], {"stmt0": "quadratic", "stmt1": "cubic", "stmt2": "unknown", "stmt3": "cubic", "stmt4": "quadratic"}.get(wk[i][3]))
+        problems["degree"] = "`%s <-- e` at %s is reported as `%s`, expected `%s` (right-hand side degree: %s)" % (wk[i][1], wk[i][3], gk[i][0], wk[i][0], {"stmt0": "quadratic", "stmt1": "cubic", "stmt2": "unknown", "stmt3": "cubic", "stmt4": "cubic", "stmt5": "quadratic"}.get(wk[i][3]))
     else:
         for g, w_ in zip(tg, tw):
             if g[4] != w_[4]:
